@@ -581,6 +581,17 @@ func (e *SpecEnv) call(n *ast.CallExpr) Term {
 			}
 		}
 		e.stale("view() of a non-ground or non-slice value")
+	case "raw":
+		// raw(s): the whole backing array of slice s as a sequence indexed by absolute offset (s[k] = raw(s)[off(s)+k])
+		argN(1)
+		a := e.expr(n.Args[0])
+		if a.Sort == "Slice" && a.T != nil {
+			el := a.T.Underlying().(*types.Slice).Elem()
+			es := x.ctx.sortOf(el)
+			m := x.elemMem(e.st, es)
+			return Term{S: app("select", m.S, app("s-arr", a.S)), Sort: "(Array Int " + es + ")", T: types.NewArray(el, 0)}
+		}
+		e.stale("raw() of a non-slice")
 	case "str":
 		// str(b): the Go conversion string(b) of a byte slice
 		argN(1)
